@@ -36,4 +36,12 @@ def obligations(tier, ctx):
                               params=[("rid", "int"), ("method", "str"), ("psel", "int"), ("leaf", "str")],
                               pre=(["0 <= rid <= 3"] if idt == "str" else ["0 <= rid <= 4"]) + ["1 <= len(method) <= 2", ("psel in (1, 4)" if tier == "quick" else "psel in (0, 1, 2, 4)"), "len(leaf) <= 1"] + (["rid in (0, 3)"] if tier == "quick" else []),
                               call=f"H.outbound{'_s' if idt == 'str' else '_i'}({kind}, rid, method, psel, leaf, {typed})", backend="F", timeout=400, family="outbound: value handed to each carrier's encoder"))
+    for typed in (True, False):
+        if tier == "quick" and not typed:
+            continue
+        for mode in (0, 1, 2):
+            obs.append(Ob(name=f"roundtrip_{'typed' if typed else 'dict'}_mode{mode}", params=[("a", "int"), ("b", "int"), ("n", "int")],
+                          pre=(["0 <= a <= 2", "0 <= b <= 1", "n in (0, 1)"] if tier == "quick" else ["0 <= a <= 4", "0 <= b <= 4", "0 <= n <= 2"]),
+                          call=f"H.roundtrip(a, b, n, {mode}, {typed})", backend="F", timeout=400,
+                          family="round trips: two requests (ids 'r1', 5, 0, '5', -7), each answered the carrier's own way"))
     return obs
